@@ -74,3 +74,43 @@ Theorem C12_starts_binary_is_starts : forall P, (0 < P)%nat -> forall evs pos,
   map Z.of_nat (starts_from P pos evs) = starts_fromZ (Z.of_nat P) (Z.of_nat pos) (map (fun e => Z.of_nat (length e)) evs).
 Proof. exact starts_fromZ_spec. Qed.
 Print Assumptions C12_starts_binary_is_starts.
+
+(* ---- the page headers the ACK works on are the ones the writer produces (Model/PQWriter.v; Proofs/PQWriterHeaderProofs.v).
+   The ACK model above takes the page structure "as the writer maintains it": off = 0 iff no event starts in the page,
+   otherwise first = id0 + (events starting in earlier pages), last = id0 + (events starting up to this page) - 1.
+   For EVERY run of Write / Next / Flush calls of the writer model, with every flush outcome, this is what every page the
+   writer created in the session carries in its header fields - in the buffer, in the released pages, and therefore
+   (the K1 comparison of every flush's page images) in the file: the start pages are `starts_from` of the completed
+   events, the function C12_ack_on_every_layout is about. ---- *)
+From VF Require Import PQWriter PQWriterProofs PQWriterHeaderProofs.
+Theorem C12_writer_maintains_the_page_headers : forall PS, (hdr_len <= payload PS)%nat ->
+  forall pages tail endId root ops,
+  match tail with Some t => (length (wp_data t) <= payload PS)%nat | None => True end ->
+  let base := match tail with Some t => wp_data t | None => [] end in
+  let '(s, rs) := w_run PS (w_init PS pages tail endId root) ops in
+  let '(done, cur) := spec_run ([], []) ops rs in
+  ws_evId s = (endId + Z.of_nat (length done))%Z /\
+  forall j p, (1 <= j)%nat -> nth_error (ws_hist s ++ b_pages (ws_buf s)) j = Some p ->
+    let ps := starts_from (payload PS) (length base) done in
+    (starts_in ps j = false -> wp_off p = 0%nat) /\
+    (starts_in ps j = true -> wp_off p <> 0%nat /\ wp_first p = (endId + Z.of_nat (cnt_lt ps j))%Z /\
+                              wp_last p = (endId + Z.of_nat (cnt_le ps j) - 1)%Z).
+Proof.
+  intros PS HP pages tail endId root ops Ht. cbn zeta.
+  pose proof (w_run_HInv PS HP ops _ endId _ [] [] (w_init_SI PS HP pages tail endId root Ht) (w_init_HInv PS HP pages tail endId root)) as H.
+  destruct (w_run PS (w_init PS pages tail endId root) ops) as [s rs].
+  destruct (spec_run ([], []) ops rs) as [done cur].
+  destruct H as [Hid Hpg]. split; [exact Hid|].
+  intros j p Hj Hn. apply (Hpg j (hcore p) Hj). unfold hcores. rewrite nth_error_map, Hn. reflexivity.
+Qed.
+Print Assumptions C12_writer_maintains_the_page_headers.
+
+(* non-vacuity: the run of C05_ex_writer (payload 12 bytes): event 0 starts in page 0, event 1 in page 1; page 2 holds only
+   the rest of event 1 and the open header *)
+Example C12_ex_page_headers :
+  let ops := [WWrite [1;2] FFailEarly; WWrite [3;4;5] FFailEarly; WNext FFailEarly; WWrite [6;7;8] FFailEarly;
+              WFlush (FFailLate [7]); WFlush (FOk [7; 9]); WWrite [9;10;11;12;13;14] FFailEarly; WNext FFailEarly] in
+  let '(s, rs) := w_run 40 (w_init 40 5 None 100 {| q_head := None; q_tail := (0, O, 0); q_inuse := 0 |}) ops in
+  map (fun p => (wp_off p, wp_first p, wp_last p)) (ws_hist s ++ b_pages (ws_buf s)) = [(28%nat, 100, 100); (28%nat, 101, 101); (0%nat, 0, 0)] /\
+  starts_from 12 0 (fst (spec_run ([], []) ops rs)) = [0%nat; 1%nat].
+Proof. vm_compute. split; reflexivity. Qed.
